@@ -22,7 +22,7 @@ YOUR TASK: make ONE small, realistic change to slip's source code in {wt} that B
   (b) the existing test suite still passes: run `/var/tmp/slipwork/seedtools/baseline.sh {wt}` (takes 20-60 s, copies the tree and runs the whole pinned suite); it must print a line ending in `missing 0`.
 The change should look like a plausible regression a developer could introduce (an optimisation, a refactoring slip, a boundary condition, a dropped copy or lock, a cache that is not invalidated, ...), and it should need something SPECIFIC to manifest — a multi-step sequence of operations, an unusual input or size, a particular interleaving, or two cooperating sites that each look fine alone — not something that ordinary use or a one-line smoke test would expose at once. Do not add dead code, comments announcing the bug, or special-casing of magic constants that no maintainer would write.
 
-Also write a DEMONSTRATION: a small Go test (e.g. {wt}/seed/demo/demo_test.go in package demo, importing github.com/ohler55/slip and _ "github.com/ohler55/slip/pkg" and evaluating Lisp with slip.ReadString(src, scope).Eval(scope, nil) inside a recover) that FAILS with your change and PASSES without it (verify both: `git stash` / `git stash pop`, or apply the patch with `git apply -R`). Run it with: cd {wt} && GOFLAGS=-mod=mod GOPROXY=off go test -vet=off -count=1 ./seed/demo/ (do not set GOTOOLCHAIN or GOSUMDB; never run the cmd/slip binary, it blocks on stdin).
+Also write a DEMONSTRATION: a small Go test (e.g. {wt}/seed/demo/demo_test.go in package demo, importing github.com/ohler55/slip and _ "github.com/ohler55/slip/pkg" and evaluating Lisp with slip.ReadString(src, scope).Eval(scope, nil) inside a recover) that FAILS with your change and PASSES without it (verify both by un-applying and re-applying your patch: `git diff -- . ':!seed' > seed/patch.diff; git apply -R seed/patch.diff; <run demo>; git apply seed/patch.diff`. NEVER use `git stash`: the stash is shared between all worktrees of the repository and other people work in them). Run it with: cd {wt} && GOFLAGS=-mod=mod GOPROXY=off go test -vet=off -count=1 ./seed/demo/ (do not set GOTOOLCHAIN or GOSUMDB; never run the cmd/slip binary, it blocks on stdin).
 
 Deliver inside {wt}/seed/:
   patch.diff  — `git diff` of the source change only (not the demo), applicable with `git apply` at the worktree's HEAD
